@@ -19,8 +19,9 @@ RULE = ("programs of the modelled fragment: every placement of 8 argument kinds 
 TRUSTED = ["Python names genname(munge(x)) are modelled as structured pairs (collision freedom is C10's subject)",
            "CPython executes the generated AST as C01/Py.v's semantics states",
            "basilisp's analyzer and the runtime helpers called by generated code (vector, the tracing fn) are primitives of the model"]
-ASSUMPTIONS = ["proof covers the first-order core (const, local, if, do, let*, calls); fn/closures, loop/recur, "
-               "try/throw, def are covered by the correspondence run only"]
+ASSUMPTIONS = ["proofs cover the first-order core (const, local, if, do, let*, calls), loop*/recur (C01L) and "
+               "throw/try/catch/finally (C01X); fn*/closures and def are covered by the executable full-fragment "
+               "model and the correspondence run only"]
 FINDINGS = {
     "F-01a": lambda c, o, tag: bool(tag & 2),     # closure over a loop-bound local
     "F-01c": lambda c, o, tag: bool(tag & 4),     # munge collision involving a fn parameter
